@@ -210,8 +210,10 @@ class TwistedEventLoop(EventLoop):
         self._twisted_idle_enabled = True
 
     def _twisted_idle_callback(self) -> None:
-        for callback in self._idle_callbacks.values():
-            callback()
+        # callbacks may add or remove idle callbacks; one removed meanwhile is not called
+        for handle, callback in tuple(self._idle_callbacks.items()):
+            if handle in self._idle_callbacks:
+                callback()
         self._twisted_idle_enabled = False
 
     def remove_enter_idle(self, handle: int) -> bool:
